@@ -233,8 +233,9 @@ def dumpChip (c : Chip) : String :=
 def stepLine (s : St) (line : String) : St × Option String :=
   let line := line.trimAscii.toString
   if line.isEmpty then (s, none) else
-  if line.startsWith "#" then ({ s with dead := false }, some line) else
+  if line.startsWith "# script" then ({ s with dead := false }, some line) else
   if s.dead then (s, none) else
+  if line.startsWith "#" then (s, some line) else
   let toks := (line.splitOn " ").filter (· ≠ "")
   let (call, evs, faults) := splitLine toks
   match call with
@@ -269,7 +270,9 @@ def stepLine (s : St) (line : String) : St × Option String :=
         | .done (r, h) w =>
           let out := s!"{name} rc={showRes name r} cb={String.join (w.cbs.reverse.map showCb)} spi={String.join (w.bus.reverse.map showBus)}" ++
             showHandle s.cached h w.cache ++ s!" uf={w.chip.underflow} of={w.chip.overflow}"
-          ({ s with world := { w with sched := [], faults := [] }, handle := some h }, some out)
+          -- scheduled events the operation did not reach happen right after it
+          let chip := w.sched.foldl (fun c e => if e.1 ≥ w.xfer then e.2.apply c else c) w.chip
+          ({ s with world := { w with chip := chip, sched := [], faults := [] }, handle := some h }, some out)
 
 partial def loop (h : IO.FS.Stream) (out : IO.FS.Stream) (s : St) : IO Unit := do
   let line ← h.getLine
